@@ -132,6 +132,7 @@ Inductive value : Type :=
 | VDbl (b : list Z)      (* 8 bytes *)
 | VStr (s : list Z).     (* string content *)
 
+Definition v_tag (v : value) : Z := match v with VInt _ => 2 | VSng _ => 4 | VDbl _ => 8 | VStr _ => 3 end.
 Definition is_num (v : value) : bool := match v with VStr _ => false | _ => true end.
 Definition value_ok (v : value) : Prop :=
   match v with
@@ -377,3 +378,8 @@ Definition c03_sweep_one (n : Z) : list Z :=
 Fixpoint c03_sweep_from (k : nat) (lo : Z) : list Z :=
   match k with O => [] | S k' => c03_sweep_one lo ++ c03_sweep_from k' (lo + 1) end.
 Definition c03_sweep (lo n : Z) : list Z := c03_sweep_from (Z.to_nat n) lo.
+
+(* harness entry point of C06: the six relational operators on one pair (harness/C06.py) *)
+Definition c06_all (x y : value) : list Z :=
+  enc_vres (v_eq x y) ++ enc_vres (v_neq x y) ++ enc_vres (v_gt x y) ++ enc_vres (v_gte x y)
+  ++ enc_vres (v_lt x y) ++ enc_vres (v_lte x y).
